@@ -187,6 +187,14 @@ impl KnownFindings {
     }
 }
 
+/// `Some(what)` if `key` is listed as an OPEN finding for `property` (read once per process).
+/// For checks that meet a recorded finding in the middle of a case and want to go on:
+/// push `(key, what)` to `Obs::known` instead of failing.
+pub fn known_open(property: &str, key: &str) -> Option<String> {
+    static K: std::sync::OnceLock<KnownFindings> = std::sync::OnceLock::new();
+    K.get_or_init(KnownFindings::load).open_for(property, key).map(|f| f.what.clone())
+}
+
 pub fn verif_dir() -> std::path::PathBuf {
     std::env::var_os("VERIF_DIR")
         .map(Into::into)
@@ -242,6 +250,7 @@ fn seed_bytes(seed: u64, shard: u64, part: &str) -> [u8; 32] {
 
 impl Ctx {
     pub fn new(property: &'static str, tier: Tier) -> Self {
+        crash::install(property);
         Ctx {
             property,
             tier,
@@ -629,12 +638,77 @@ pub mod watchdog {
     }
 }
 
+/// A case that kills the whole process (abort on allocation failure, stack overflow, double
+/// panic, memory fault) cannot be caught like a panic. The case each worker is running is kept
+/// serialized; a handler for the fatal signals writes it out as the replay file, prints the
+/// VIOLATION line and exits 1.
+pub mod crash {
+    use std::cell::RefCell;
+    use std::sync::OnceLock;
+
+    static PROPERTY: OnceLock<String> = OnceLock::new();
+    thread_local! {
+        static CURRENT: RefCell<Option<(String, String)>> = const { RefCell::new(None) };
+    }
+
+    pub fn install(property: &str) {
+        let _ = PROPERTY.set(property.to_string());
+        unsafe {
+            for sig in [libc::SIGABRT, libc::SIGSEGV, libc::SIGBUS, libc::SIGILL] {
+                let mut sa: libc::sigaction = std::mem::zeroed();
+                sa.sa_sigaction = handler as usize;
+                sa.sa_flags = libc::SA_ONSTACK | libc::SA_RESETHAND;
+                libc::sigemptyset(&mut sa.sa_mask);
+                libc::sigaction(sig, &sa, std::ptr::null_mut());
+            }
+        }
+    }
+
+    pub fn begin(part: &str, case_json: &str) {
+        let _ = CURRENT.try_with(|c| *c.borrow_mut() = Some((part.to_string(), case_json.to_string())));
+    }
+
+    pub fn end() {
+        let _ = CURRENT.try_with(|c| *c.borrow_mut() = None);
+    }
+
+    extern "C" fn handler(sig: libc::c_int) {
+        // Not async-signal-safe in the letter (allocation, file I/O), but the process is lost
+        // anyway and the giant allocation or the fault that brought us here is not in progress.
+        let cur = CURRENT.try_with(|c| c.try_borrow().ok().and_then(|c| c.clone())).ok().flatten();
+        let prop = PROPERTY.get().cloned().unwrap_or_default();
+        match cur {
+            Some((part, case)) if !prop.is_empty() => {
+                let name = match sig { libc::SIGABRT => "SIGABRT", libc::SIGSEGV => "SIGSEGV", libc::SIGBUS => "SIGBUS", _ => "SIGILL" };
+                let dir = super::verif_dir().join("out").join("replay");
+                let _ = std::fs::create_dir_all(&dir);
+                let path = dir.join(format!("{prop}-{}-crash.json", part.replace([':', '/'], "-")));
+                let msg = format!("the checking process was killed by {name} (abort on allocation failure or double panic, stack overflow, memory fault) while running this case");
+                let doc = format!("{{\"property\":\"{prop}\",\"part\":\"{part}\",\"key\":\"crash:{name}\",\"message\":\"{msg}\",\"seed\":0,\"tier\":\"quick\",\"case\":{case}}}");
+                let _ = std::fs::write(&path, doc);
+                let line = format!("violation detail: part={part} key=crash:{name} {msg}\nVIOLATION property={prop} replay={}\n", path.display());
+                unsafe {
+                    libc::write(1, line.as_ptr() as *const libc::c_void, line.len());
+                    libc::_exit(1);
+                }
+            }
+            _ => unsafe {
+                // not inside a case: default action (SA_RESETHAND restored it)
+                libc::raise(sig);
+            },
+        }
+    }
+}
+
 fn run_case_caught<P: Part>(part: &P, case: &P::Case, obs: &mut Obs) -> Result<(), Fail> {
     crate::panics::clear_thread();
-    watchdog::begin(part.name(), serde_json::to_string(case).unwrap_or_default());
+    let case_json = serde_json::to_string(case).unwrap_or_default();
+    crash::begin(part.name(), &case_json);
+    watchdog::begin(part.name(), case_json);
     let t0 = Instant::now();
     let r = run_case_caught_inner(part, case, obs);
     watchdog::end();
+    crash::end();
     if let Some(ms) = std::env::var("VERIF_SLOW_MS").ok().and_then(|s| s.parse::<u128>().ok()) {
         if t0.elapsed().as_millis() > ms {
             eprintln!("SLOW {} ms [{}]: {}", t0.elapsed().as_millis(), part.name(), serde_json::to_string(case).unwrap_or_default());
